@@ -97,6 +97,7 @@ type vCase struct {
 
 type vMachine struct {
 	forced []vOp // operations to generate next, queued by the generator itself
+	xPaid  bool  // C19 external: some reward program has paid something out
 	t      rec.TB
 	r      *rec.Rec
 	prop   string
@@ -389,6 +390,11 @@ func (m *vMachine) genOp(rt *rapid.T, i int) vOp {
 	if m.prop == "C13" {
 		kinds = append(kinds, "block", "block", "block", "repay", "close", "draw")
 	}
+	if m.prop == "C19" {
+		if k := rapid.SampledFrom([]string{"", "", "", "", "xlocker", "xvault", "day", "day", "day"}).Draw(rt, lbl("xkind")); k != "" {
+			return m.c19XGenOp(rt, i, k)
+		}
+	}
 	if len(cfg.Lockers) > 0 && rapid.IntRange(0, 9).Draw(rt, lbl("lockerop")) < lockerWeight(m.prop) {
 		return m.genLockerOp(rt, i)
 	}
@@ -676,6 +682,10 @@ func (m *vMachine) apply(i int, op vOp) {
 		m.applyLocker(i, op)
 		m.invariants(i, op)
 		return
+	case "xlocker", "xvault":
+		m.c19XApply(i, op)
+		m.invariants(i, op)
+		return
 	case "block":
 		if err := c.NextBlockRecover(time.Duration(op.Dt) * time.Second); err != nil {
 			m.fail(m.prop+".block-hook-panic", "block", "step %d: %v", i, err)
@@ -804,6 +814,8 @@ func (m *vMachine) invariants(i int, op vOp) {
 		m.c03Invariants(i, op)
 	case "C13":
 		m.c13Invariants(i, op)
+	case "C19":
+		m.c19XInvariants(i, op)
 	}
 }
 
@@ -1165,6 +1177,14 @@ func (m *vMachine) finish() {
 		}
 	case "C13":
 		m.c13Finish()
+	case "C19":
+		// non-trivial: some external reward program paid something out while another one (or the same) was still active
+		if m.xPaid && ok["xlocker"]+ok["xvault"] >= 2 {
+			r.NonTrivial(m.cs)
+		}
+		if m.xPaid {
+			r.Class("external-program-paid-out")
+		}
 	case "C03":
 		r.ClassN("accepted-within-1e-9-of-min-cr", m.bAccepted)
 		if m.bAccepted > 0 || (m.boundary > 0 && ok["create"]+ok["draw"]+ok["withdraw"]+ok["depdraw"] > 0) {
